@@ -49,8 +49,9 @@ class Contract:
     """callee contract: requires(args...) -> list of (label, Bool); ensures(res, args...) -> list of Bool;
     result(args...) -> fresh result value (default: one fresh real symbol)."""
 
-    def __init__(self, name, requires=None, ensures=None, result=None, params=None):
+    def __init__(self, name, requires=None, ensures=None, result=None, params=None, effect=None):
         self.name = name
+        self.effect = effect
         self.requires = requires
         self.ensures = ensures
         self.result = result
@@ -108,11 +109,81 @@ class Obj:
     def getattr(self, k):
         if k in self._attrs:
             return self._attrs[k]
-        raise SymExError(f"object has no attribute {k}")
+        raise SymExError(f"object of class {getattr(self._cls, 'name', None)} has no attribute {k}")
+
+    def has(self, k):
+        return k in self._attrs
 
     def setattr(self, k, v):
         self._attrs[k] = v
         self._writes.append(k)
+
+
+class ClassModel:
+    """a class of the real source: methods / properties resolved along the given bases (MRO order)"""
+
+    def __init__(self, name, relpath, bases=()):
+        from .extract import source
+        self.name = name
+        self.relpath = relpath
+        self.src = source(relpath)
+        self.node = self.src.find(name)
+        self.bases = list(bases)
+        self.methods, self.getters, self.setters = {}, {}, {}
+        for st in self.node.body:
+            if isinstance(st, ast.FunctionDef):
+                decos = [ast.unparse(d) for d in st.decorator_list]
+                if "property" in decos:
+                    self.getters[st.name] = st
+                elif any(d.endswith(".setter") for d in decos):
+                    self.setters[st.name] = st
+                else:
+                    self.methods[st.name] = st
+        self.class_attrs = {}
+        for st in self.node.body:
+            if isinstance(st, ast.Assign) and len(st.targets) == 1 and isinstance(st.targets[0], ast.Name):
+                self.class_attrs[st.targets[0].id] = st.value
+
+    def mro(self):
+        out = [self]
+        for b in self.bases:
+            for c in b.mro():
+                if c not in out:
+                    out.append(c)
+        return out
+
+    def lookup(self, kind, name):
+        for c in self.mro():
+            tbl = getattr(c, kind)
+            if name in tbl:
+                return c, tbl[name]
+        return None, None
+
+
+class MethodFn:
+    """Fn-like wrapper for a method node"""
+
+    def __init__(self, cls: ClassModel, node):
+        import hashlib
+        self.src = cls.src
+        self.relpath = cls.relpath
+        self.qualname = f"{cls.name}.{node.name}"
+        self.key = f"{cls.relpath}::{cls.name}.{node.name}"
+        self.node = node
+        self.cls = cls
+        self.params = [a.arg for a in node.args.posonlyargs + node.args.args]
+        self.kwonly = [a.arg for a in node.args.kwonlyargs]
+        nd = len(node.args.defaults)
+        self.defaults = dict(zip(self.params[len(self.params) - nd:], node.args.defaults)) if nd else {}
+        for a, d in zip(node.args.kwonlyargs, node.args.kw_defaults):
+            if d is not None:
+                self.defaults[a.arg] = d
+        self.dropped = ["decorators/annotations/docstring"]
+        seg = ast.get_source_segment(self.src.text, node) or ""
+        self.sha = hashlib.sha256(seg.encode()).hexdigest()[:16]
+
+    def info(self):
+        return dict(function=self.key, line=self.node.lineno, source_sha=self.sha, translated_from_pyx=self.src.translated, dropped=self.dropped)
 
 
 class Path:
@@ -156,6 +227,7 @@ class Exec:
         self.defined_checks = self.opts.get("definedness", True)
         self._ord = {}
         self._srcs = [fn.src]
+        self.called = set()
 
     # ------------------------------------------------------------------ path exploration
     def run(self, args: dict):
@@ -340,6 +412,12 @@ class Exec:
         elif isinstance(t, ast.Attribute):
             base = self.ev(t.value, env)
             if isinstance(base, Obj):
+                cls = base._cls
+                if cls is not None and not base.has(t.attr):
+                    c, st_ = cls.lookup("setters", t.attr)
+                    if st_ is not None:
+                        self.call_method(base, MethodFn(c, st_), [v], {}, t)
+                        return
                 base.setattr(t.attr, v)
                 self.effects.append(("attr_write", base, t.attr, v))
             else:
@@ -764,6 +842,23 @@ class Exec:
         if isinstance(base, Namespace):
             return base.get(a)
         if isinstance(base, Obj):
+            if base.has(a):
+                return base.getattr(a)
+            cls = base._cls
+            if cls is not None:
+                c, g = cls.lookup("getters", a)
+                if g is not None:
+                    return self.call_method(base, MethodFn(c, g), [], {}, node)
+                c, m = cls.lookup("methods", a)
+                if m is not None:
+                    return ("method", base, MethodFn(c, m))
+                for cc in cls.mro():
+                    if a in cc.class_attrs:
+                        self._fnstack.append(MethodFn(cc, cc.node.body[0]) if False else self._fnstack[-1])
+                        try:
+                            return self.ev(cc.class_attrs[a], {})
+                        finally:
+                            self._fnstack.pop()
             return base.getattr(a)
         if T.is_num(base):
             if a == "real":
@@ -812,6 +907,8 @@ class Exec:
             raise SymExError(f"call of {name!r} at line {node.lineno}: no contract, shim or inline body")
         if isinstance(f, tuple) and f and f[0] == "bound":
             return self.call_bound(f[1], f[2], args, kwargs, node)
+        if isinstance(f, tuple) and f and f[0] == "method":
+            return self.call_method(f[1], f[2], args, kwargs, node)
         if isinstance(f, tuple) and f and f[0] == "localfn":
             raise SymExError("call of nested function")
         if isinstance(f, Contract):
@@ -831,6 +928,8 @@ class Exec:
             for label, g in c.requires(*cargs):
                 self.oblige("pre", node, g, f"precondition of {c.name}: {label}")
         res = c.result(*cargs) if c.result else fresh(c.name)
+        if getattr(c, "effect", None):
+            c.effect(self, res, *cargs)
         if c.ensures:
             for fct in c.ensures(res, *cargs):
                 fct = T.as_bool(fct)
@@ -864,6 +963,36 @@ class Exec:
         finally:
             self._fnstack.pop()
             self.genv = saved
+
+    def call_method(self, obj, mfn, args, kwargs, node):
+        cname = f"{mfn.cls.name}.{mfn.node.name}"
+        c = self.contracts.get(cname) or self.contracts.get("." + mfn.node.name)
+        if c is not None:
+            return self.call_contract(c, [obj] + list(args), kwargs, node)
+        depth = sum(1 for f in self._fnstack if getattr(f, "key", None) == mfn.key)
+        if depth > self.opts.get("max_recursion", 3):
+            raise SymExError(f"recursion depth exceeded in {mfn.key}")
+        env = dict(zip(mfn.params, [obj] + list(args)))
+        for k, v in kwargs.items():
+            if k not in mfn.params and k not in mfn.kwonly:
+                raise SymExError(f"{mfn.key}: unexpected keyword {k}")
+            env[k] = v
+        self._fnstack.append(mfn)
+        self.called.add(mfn.key)
+        try:
+            for p, d in mfn.defaults.items():
+                if p not in env:
+                    env[p] = self.ev(d, {})
+            missing = [p for p in mfn.params if p not in env]
+            if missing:
+                raise SymExError(f"{mfn.key}: missing arguments {missing}")
+            try:
+                self.exec_block(mfn.node.body, env)
+                return None
+            except _Return as r:
+                return r.v
+        finally:
+            self._fnstack.pop()
 
     def call_bound(self, meth, base, args, kwargs, node):
         if T.is_num(base):
@@ -1280,7 +1409,12 @@ _NP = {
 NP = Namespace("np", _NP)
 MATH = Namespace("math", {"sqrt": _sh_sqrt, "exp": _sh_exp, "log": _sh_log, "sin": _sh_sin, "cos": _sh_cos, "pi": T.PI,
                           "fabs": _sh_abs, "isnan": _sh_isnan, "pow": _sh_power, "cbrt": _sh_cbrt})
-BUILTIN_VALUES = {"True": True, "False": False, "None": None, "np": NP, "numpy": NP, "math": MATH,
+def _noop(ex, node, *a, **k):
+    return None
+
+
+LOG = Namespace("log", {k: _noop for k in ("debug", "info", "warning", "error", "critical", "exception")})
+BUILTIN_VALUES = {"log": LOG, "True": True, "False": False, "None": None, "np": NP, "numpy": NP, "math": MATH,
                   "float": ("fn", "float"), "int": ("fn", "int"), "complex": ("fn", "complex"), "str": ("fn", "str"),
                   "dict": ("fn", "dict"), "list": ("fn", "list"), "tuple": ("fn", "tuple"), "bool": ("fn", "bool")}
 for _k in SHIMS:
